@@ -157,7 +157,10 @@ def run(ctx):
     rnd = random.Random(ctx.seed)
     mism = [p for p in pairs if not p["samedim"]]
     # same-dimension twins: two *distinct* unit types of identical magnitude (and origin) fall under the documented ordering limitation
-    same = [p for p in pairs if p["samedim"] and (not p["samemag"] or expr_str(p["e1"]) == expr_str(p["e2"]) or {expr_str(p["e1"]), expr_str(p["e2"])} == {"Celsius", "Kelvins"})]
+    # ... which concerns *named* units; two distinct compound units (products / quotients) of equal magnitude are ordinary valid operands
+    compound = lambda e: e["op"] in ("mul", "div")
+    same = [p for p in pairs if p["samedim"] and (not p["samemag"] or expr_str(p["e1"]) == expr_str(p["e2"]) or {expr_str(p["e1"]), expr_str(p["e2"])} == {"Celsius", "Kelvins"}
+                                                  or (compound(p["e1"]) and compound(p["e2"])))]
     rnd.shuffle(mism)
     rnd.shuffle(same)
     nm, ns = (14, 12) if ctx.tier == "quick" else (120, 60)
@@ -169,7 +172,8 @@ def run(ctx):
     merge = [p for p in mism if (expr_str(p["e1"]), expr_str(p["e2"])) in extra_keys] + [p for p in mism if expr_str(p["e2"]) == "Unos" and p["e1"]["op"] == "div" and p["e1"]["l"]["op"] == "unit" and p["e1"]["r"]["op"] == "unit"
              and p["e1"]["l"]["id"] in BASE_UNITS and p["e1"]["r"]["id"] in BASE_UNITS]
     mism = fixed + [p for p in mism if p not in fixed and p not in merge][:nm]
-    same = (find(same, "Meters", "Feet") + find(same, "Celsius", "Kelvins") + find(same, "Seconds", "Seconds") + find(same, "Seconds^-1/2", "kilo(Hertz)^1/2") +
+    same = (find(same, "(Newtons*Meters)", "(Watts*Seconds)") + find(same, "(Meters*Hertz)", "(Meters/Seconds)") + find(same, "(Watts*Seconds)", "(Newtons*Meters)") +
+            find(same, "Meters", "Feet") + find(same, "Celsius", "Kelvins") + find(same, "Seconds", "Seconds") + find(same, "Seconds^-1/2", "kilo(Hertz)^1/2") +
             find(same, "Meters^3/2", "Meters^3/2") + find(same, "Feet^1/2", "Meters^1/2") + [p for p in same][:ns])
     cfgs = core.QUICK_CONFIGS if ctx.tier == "quick" else core.ALL_CONFIGS
     probe_cfgs = cfgs[:2] if ctx.tier == "quick" else cfgs
